@@ -14,11 +14,7 @@ CONSTANTS Tier
 
 A == <<"a.html">>  B == <<"b.html">>  DA == <<"d", "a.html">>  DB == <<"d", "b.html">>  DEA == <<"d", "e", "a.html">>
 NameSeq == <<A, B, DA, DB, DEA>>
-OwnerIdx(n) == CHOOSE i \in 1..Len(NameSeq) : NameSeq[i] = n
-KindIdx(k) == CASE k = "extends" -> 1 [] k = "import" -> 2 [] k = "render" -> 3 [] k = "renderd" -> 4
-Key(r) == OwnerIdx(r.o) * 10 + KindIdx(r.k)
 
-K3 == {"extends", "import", "render"}
 \* paths by form (what they resolve to depends on the directory of the referring file)
 PRootMix == {<<"b.html">>, <<"", "a.html">>, <<"d", "a.html">>, <<"..", "a.html">>, <<"..", "..", "b.html">>, <<"d", "..", "a.html">>}
 PMidMix  == {<<"a.html">>, <<"e", "a.html">>, <<"..", "a.html">>, <<"..", "..", "a.html">>, <<"", "d", "a.html">>, <<".", "a.html">>}
@@ -31,60 +27,90 @@ PBad  == {<<"">>, <<".">>, <<"..">>, <<"", "">>, <<".", "a.html">>, <<"a.html", 
           <<"", "..", "a.html">>, <<"..", "">>, <<"d", ".", "a.html">>, <<"..", "a.html", "..">>, <<"", ".">>, <<"..", ".", "a.html">>,
           <<"", "", "a.html">>, <<"e", "..", "..", "..", "b.html">>}
 PAll  == PRel \cup PAbs \cup PUp \cup PBad
-All5 == {A, B, DA, DB, DEA}
 
-Fam(f, e, k, p, m) == [files |-> f, entry |-> e, kinds |-> k, paths |-> p, max |-> m]
-Families ==
+\* a family: files, kinds, paths as sequences (files in NameSeq order, kinds in statement order)
+Fam(f, e, k, p, m) == [files |-> f, entry |-> e, kinds |-> k, paths |-> SetToSeq(p), max |-> m]
+K3 == <<"extends", "import", "render">>
+K4 == <<"extends", "import", "render", "renderd">>
+KI == <<"import", "render", "renderd">>
+KE == <<"extends", "render", "renderd">>
+All5 == <<A, B, DA, DB, DEA>>
+Fams ==
   IF Tier = 1 THEN
-    { Fam({A, B, DA}, A, K3, PRootMix, 3),
-      Fam({A, DA, DEA}, DA, {"import", "render", "renderd"}, PMidMix, 3),
-      Fam({B, DB, DEA}, DEA, {"extends", "render", "renderd"}, PDeepMix, 3),
-      Fam(All5, A, Kinds, PAll, 1), Fam(All5, DA, Kinds, PAll, 1), Fam(All5, DEA, Kinds, PAll, 1),
-      Fam({A}, B, {}, {}, 0), Fam({DA}, A, {}, {}, 0) }
+    << Fam(<<A, B, DA>>, A, K3, PRootMix, 3),
+       Fam(<<A, DA, DEA>>, DA, KI, PMidMix, 3),
+       Fam(<<B, DB, DEA>>, DEA, KE, PDeepMix, 3),
+       Fam(All5, A, K4, PAll, 1), Fam(All5, DA, K4, PAll, 1), Fam(All5, DEA, K4, PAll, 1),
+       Fam(<<A>>, B, K3, {}, 0), Fam(<<DA>>, A, K3, {}, 0) >>
   ELSE
-    { Fam({A, B, DA}, A, Kinds, PRootMix \cup {<<"", "d", "a.html">>, <<"..", "d", "a.html">>}, 3),
-      Fam({A, DA, DEA}, DA, Kinds, PMidMix \cup {<<"", "a.html">>, <<"..", "e", "a.html">>}, 3),
-      Fam({B, DB, DEA}, DEA, Kinds, PDeepMix \cup {<<"", "b.html">>, <<"..", "a.html">>}, 3),
-      Fam({A, B, DA, DEA}, A, K3, {<<"b.html">>, <<"", "d", "a.html">>, <<"e", "a.html">>, <<"..", "a.html">>}, 4),
-      Fam({A, DA, DB, DEA}, DB, {"import", "render", "renderd"}, {<<"a.html">>, <<"", "d", "b.html">>, <<"..", "..", "a.html">>, <<"e", "a.html">>}, 4),
-      Fam({A, B, DA, DB}, A, {"render"}, {<<"", "a.html">>, <<"", "b.html">>, <<"", "d", "a.html">>, <<"", "d", "b.html">>}, 5),
-      Fam(All5, A, Kinds, PAll, 1), Fam(All5, DA, Kinds, PAll, 1), Fam(All5, DEA, Kinds, PAll, 1),
-      Fam(All5, DA, {"render", "import"}, PRel \cup PAbs \cup PUp, 2),
-      Fam({A}, B, {}, {}, 0), Fam({DA}, A, {}, {}, 0) }
+    << Fam(<<A, B, DA>>, A, K4, PRootMix \cup {<<"", "d", "a.html">>, <<"..", "d", "a.html">>}, 3),
+       Fam(<<A, DA, DEA>>, DA, K4, PMidMix \cup {<<"", "a.html">>, <<"..", "e", "a.html">>}, 3),
+       Fam(<<B, DB, DEA>>, DEA, K4, PDeepMix \cup {<<"", "b.html">>, <<"..", "a.html">>}, 3),
+       Fam(<<A, B, DA, DEA>>, A, K3, {<<"b.html">>, <<"", "d", "a.html">>, <<"e", "a.html">>, <<"..", "a.html">>}, 4),
+       Fam(<<A, DA, DB, DEA>>, DB, KI, {<<"a.html">>, <<"", "d", "b.html">>, <<"..", "..", "a.html">>, <<"e", "a.html">>}, 4),
+       Fam(<<A, B, DA, DB>>, A, <<"render">>, {<<"", "a.html">>, <<"", "b.html">>, <<"", "d", "a.html">>, <<"", "d", "b.html">>}, 5),
+       Fam(All5, A, K4, PAll, 1), Fam(All5, DA, K4, PAll, 1), Fam(All5, DEA, K4, PAll, 1),
+       Fam(All5, DA, <<"import", "render">>, PRel \cup PAbs \cup PUp, 2),
+       Fam(<<A>>, B, K3, {}, 0), Fam(<<DA>>, A, K3, {}, 0) >>
 
-Alpha(fam) == {[o |-> o, k |-> k, p |-> p] : o \in fam.files, k \in fam.kinds, p \in fam.paths}
-\* sequences of exactly n references in canonical order
+(* A reference list is coded as an integer: the references of a family are numbered 1..N
+   owner-major, then kind, then path (so the canonical order of a list is "group numbers do not
+   decrease", group = owner x kind); a list d1..dk is the number sum dj * (N+1)^(j-1).  Sets of
+   integers are what TLC builds fast; a graph is decoded only when needed.                     *)
+NRefs(fam) == Len(fam.files) * Len(fam.kinds) * Len(fam.paths)
+RECURSIVE Pow(_, _)
+Pow(b, n) == IF n = 0 THEN 1 ELSE b * Pow(b, n - 1)
+Digit(fam, c, j) == (c \div Pow(NRefs(fam) + 1, j - 1)) % (NRefs(fam) + 1)
+Group(fam, d) == (d - 1) \div Len(fam.paths)
+RefAt(fam, d) == [o |-> fam.files[((d - 1) \div (Len(fam.kinds) * Len(fam.paths))) + 1],
+                  k |-> fam.kinds[(((d - 1) \div Len(fam.paths)) % Len(fam.kinds)) + 1],
+                  p |-> fam.paths[((d - 1) % Len(fam.paths)) + 1]]
+RECURSIVE NDigits(_, _, _)
+NDigits(fam, c, j) == IF Digit(fam, c, j + 1) = 0 THEN j ELSE NDigits(fam, c, j + 1)
+RefsOfCode(fam, c) == [j \in 1..NDigits(fam, c, 0) |-> RefAt(fam, Digit(fam, c, j))]
+\* codes of the canonical lists of exactly n references
 RECURSIVE Level(_, _)
 Level(fam, n) ==
-  IF n = 0 THEN {<<>>}
-  ELSE UNION {{Append(s, r) : r \in {x \in Alpha(fam) : Len(s) = 0 \/ Key(x) >= Key(s[Len(s)])}} : s \in Level(fam, n - 1)}
-GraphsOf(fam) ==
-  LET all == UNION {Level(fam, n) : n \in 0..fam.max}
-      gs == {[files |-> fam.files, entry |-> fam.entry, refs |-> s] : s \in all}
-  IN {g \in gs : \A i \in 1..Len(g.refs) : g.refs[i].o \in Reach(g)}
-Graphs == UNION {GraphsOf(fam) : fam \in Families}
+  IF n = 0 THEN {0}
+  ELSE {x \in {c + d * Pow(NRefs(fam) + 1, n - 1) : c \in Level(fam, n - 1), d \in 1..NRefs(fam)} :
+            n = 1 \/ Group(fam, Digit(fam, x, n)) >= Group(fam, Digit(fam, x, n - 1))}
+\* every reference belongs to a file reachable from the entry file (through any reference)
+RECURSIVE LiveSet(_, _, _, _)
+LiveSet(refs, tg, S, n) == IF n = 0 THEN S ELSE LiveSet(refs, tg, S \cup {tg[j] : j \in {i \in 1..Len(refs) : refs[i].o \in S}}, n - 1)
+LiveCode(fam, c) == LET refs == RefsOfCode(fam, c)
+                        tg == [j \in 1..Len(refs) |-> Rooted(Dir(refs[j].o), refs[j].p)]
+                        S == LiveSet(refs, tg, {fam.entry}, Len(refs))
+                    IN \A j \in 1..Len(refs) : refs[j].o \in S
+Codes(fam) == {c \in UNION {Level(fam, n) : n \in 0..fam.max} : LiveCode(fam, c)}
+GraphOf(fi, c) == [files |-> {Fams[fi].files[i] : i \in 1..Len(Fams[fi].files)}, entry |-> Fams[fi].entry, refs |-> RefsOfCode(Fams[fi], c)]
+GraphIds == UNION {{<<fi, c>> : c \in Codes(Fams[fi])} : fi \in 1..Len(Fams)}
 
-VARIABLE st
-Init == \E g \in Graphs : st = InitSt(g)
-StartMissing == G_StartMissing(st) /\ st' = Tick(E_StartMissing(st))
-StartSyntax == G_StartSyntax(st) /\ st' = Tick(E_StartSyntax(st))
-Start == G_Start(st) /\ st' = Tick(E_Start(st))
-ReturnTop == G_ReturnTop(st) /\ st' = Tick(E_ReturnTop(st))
-ReturnChild == G_ReturnChild(st) /\ st' = Tick(E_ReturnChild(st))
-ExtendsForbidden == G_ExtendsForbidden(st) /\ st' = Tick(E_ExtendsForbidden(st))
-EscapeFail == G_EscapeFail(st) /\ st' = Tick(E_EscapeFail(st))
-EscapeTolerated == G_EscapeTolerated(st) /\ st' = Tick(E_EscapeTolerated(st))
-Cycle == G_Cycle(st) /\ st' = Tick(E_Cycle(st))
-CacheConflict == G_CacheConflict(st) /\ st' = Tick(E_CacheConflict(st))
-CacheReuse == G_CacheReuse(st) /\ st' = Tick(E_CacheReuse(st))
-ReadMissingFail == G_ReadMissingFail(st) /\ st' = Tick(E_ReadMissingFail(st))
-ReadMissingTolerated == G_ReadMissingTolerated(st) /\ st' = Tick(E_ReadMissingTolerated(st))
-ReadSyntax == G_ReadSyntax(st) /\ st' = Tick(E_ReadSyntax(st))
-ReadPush == G_ReadPush(st) /\ st' = Tick(E_ReadPush(st))
-Next == StartMissing \/ StartSyntax \/ Start \/ ReturnTop \/ ReturnChild \/ ExtendsForbidden \/ EscapeFail
+VARIABLES st, picked
+vars == <<st, picked>>
+EmptyGraph == [files |-> {}, entry |-> A, refs |-> <<>>]
+\* one initial state and a Pick action (thousands of initial states make TLC's liveness check quadratic)
+Init == picked = FALSE /\ st = InitSt(EmptyGraph)
+Pick == ~picked /\ picked' = TRUE /\ \E gi \in GraphIds : st' = InitSt(GraphOf(gi[1], gi[2]))
+Act(G, E) == picked /\ UNCHANGED picked /\ G /\ st' = Tick(E)
+StartMissing == Act(G_StartMissing(st), E_StartMissing(st))
+StartSyntax == Act(G_StartSyntax(st), E_StartSyntax(st))
+Start == Act(G_Start(st), E_Start(st))
+ReturnTop == Act(G_ReturnTop(st), E_ReturnTop(st))
+ReturnChild == Act(G_ReturnChild(st), E_ReturnChild(st))
+ExtendsForbidden == Act(G_ExtendsForbidden(st), E_ExtendsForbidden(st))
+EscapeFail == Act(G_EscapeFail(st), E_EscapeFail(st))
+EscapeTolerated == Act(G_EscapeTolerated(st), E_EscapeTolerated(st))
+Cycle == Act(G_Cycle(st), E_Cycle(st))
+CacheConflict == Act(G_CacheConflict(st), E_CacheConflict(st))
+CacheReuse == Act(G_CacheReuse(st), E_CacheReuse(st))
+ReadMissingFail == Act(G_ReadMissingFail(st), E_ReadMissingFail(st))
+ReadMissingTolerated == Act(G_ReadMissingTolerated(st), E_ReadMissingTolerated(st))
+ReadSyntax == Act(G_ReadSyntax(st), E_ReadSyntax(st))
+ReadPush == Act(G_ReadPush(st), E_ReadPush(st))
+Next == Pick \/ StartMissing \/ StartSyntax \/ Start \/ ReturnTop \/ ReturnChild \/ ExtendsForbidden \/ EscapeFail
         \/ EscapeTolerated \/ Cycle \/ CacheConflict \/ CacheReuse \/ ReadMissingFail \/ ReadMissingTolerated
         \/ ReadSyntax \/ ReadPush
-Spec == Init /\ [][Next]_st /\ WF_st(Next)
+Spec == Init /\ [][Next]_vars /\ WF_vars(Next)
 
 (* ---- what TLC checks ---- *)
 \* termination: expansion depth never exceeds the number of files, the active path has no
@@ -92,8 +118,8 @@ Spec == Init /\ [][Next]_st /\ WF_st(Next)
 \* reference, pushes a file read for the first time, or pops it); and eventually an outcome
 DepthBound == Len(st.stack) <= Cardinality(st.g.files) /\ Cardinality(Paths(st)) = Len(st.stack)
 StepBound == st.steps <= 2 + Len(st.g.refs) + 2 * Cardinality(st.g.files)
-Terminates == <>Final(st)
-ExactlyOneBranch == ~Final(st) => Cardinality({b \in 1..15 :
+Terminates == <>(picked /\ Final(st))
+ExactlyOneBranch == (picked /\ ~Final(st)) => Cardinality({b \in 1..15 :
      <<G_StartMissing(st), G_StartSyntax(st), G_Start(st), G_ReturnTop(st), G_ReturnChild(st), G_ExtendsForbidden(st),
        G_EscapeFail(st), G_EscapeTolerated(st), G_Cycle(st), G_CacheConflict(st), G_CacheReuse(st), G_ReadMissingFail(st),
        G_ReadMissingTolerated(st), G_ReadSyntax(st), G_ReadPush(st)>>[b]}) = 1
@@ -112,7 +138,8 @@ OtherJustified == (Final(st) /\ st.out = "other") => OtherPossible(st.g)
 RunFnAgrees == st.out = "init" => (LET r == ImplRun(st.g) IN Final(r) /\ r.steps <= 2 + Len(st.g.refs) + 2 * Cardinality(st.g.files))
 
 (* ---- case export ---- *)
-Cases == LET G == SetToSeq(Graphs) IN
-  [i \in 1..Len(G) |-> [id |-> i, files |-> SetToSeq(G[i].files), entry |-> G[i].entry, refs |-> G[i].refs]]
+Cases == LET G == SetToSeq(GraphIds) IN
+  [i \in 1..Len(G) |-> LET g == GraphOf(G[i][1], G[i][2]) IN
+     [id |-> i, files |-> Fams[G[i][1]].files, entry |-> g.entry, refs |-> g.refs]]
 ASSUME ndJsonSerialize("cases.ndjson", Cases)
 =============================================================================
